@@ -130,9 +130,9 @@ static void c01(Sink &sink, const Args &a, long c)
     uint64_t wseed = hmix(hmix(splitmix(a.seed), 0xC01), widx);
     ompl::RNG::setSeed(caseSeed(a, c, 1) % 1000000000ULL + 1);
     // every fourth world of the main block has a narrow passage (a wall with one slit between the start and the goal corner)
-    const bool narrow = !dirBlock && widx % 4 == 3;
+    const bool narrow = !dirBlock && !hostile && widx % 4 == 3;  // (worlds with hostile inputs keep the plain layout)
     // ... and every fourth is cluttered with many small obstacles (whatever the kind of space)
-    const bool cluttered = !dirBlock && widx % 4 == 2;
+    const bool cluttered = !dirBlock && !hostile && widx % 4 == 2;
     auto w = makeWorld(wseed, kind, hostile, dirBlock ? -2 : narrow ? -3 : cluttered ? -4 : -1);
     if (cluttered) sink.count("cases_with_cluttered_world");
     if (narrow)
@@ -1100,7 +1100,7 @@ int main(int argc, char **argv)
     const long NP = registry().size();
     if (a.prop == "C01")
     {
-        g_c01MainCases = (long)(NP * (a.thorough() ? 90 : 14) * a.scale);
+        g_c01MainCases = (long)(NP * (a.thorough() ? 90 : 16) * a.scale);
         total = g_c01MainCases + (long)(dirOptPlanners().size() * (a.thorough() ? 200 : 40) * a.scale);
         fn = c01;
     }
